@@ -23,6 +23,11 @@ EXPLANATION = (
 TRUSTED = ["int(), chr(), urllib.parse.unquote_to_bytes, the utf-16 / utf-8 codecs"]
 
 
+def _is_last_in_loop(stmt):
+    p = getattr(stmt, "_parent", None)
+    return isinstance(p, (ast.For, ast.While)) and p.body and p.body[-1] is stmt
+
+
 def check(run):
     prog = run.prog
     A = sites.analysis(prog)
@@ -164,7 +169,12 @@ def check(run):
                 names.add(norm_src(x))
             if h.type is None:
                 names.add("BaseException")
-            if not (h.body and isinstance(h.body[-1], ast.Continue)) or any(isinstance(y, ast.Call) and isinstance(y.func, ast.Attribute) and y.func.attr == "append" for b in h.body for y in ast.walk(b)):
+            appends_here = any(isinstance(y, ast.Call) and isinstance(y.func, ast.Attribute) and y.func.attr == "append" for b in h.body for y in ast.walk(b))
+            # the handler skips the hit: it continues, or it falls through while the only append sits in the try's else clause
+            falls_to_loop_end = t.orelse and any(isinstance(y, ast.Call) and isinstance(y.func, ast.Attribute) and y.func.attr == "append"
+                                                 for b in t.orelse for y in ast.walk(b)) and _is_last_in_loop(t) and \
+                not any(isinstance(y, (ast.Return, ast.Break, ast.Raise)) for b in h.body for y in ast.walk(b))
+            if not ((h.body and isinstance(h.body[-1], ast.Continue)) or falls_to_loop_end) or appends_here:
                 skip = False
         covers = bool(names & {"UnicodeEncodeError", "UnicodeError", "ValueError", "Exception", "BaseException"})
         app_after = any(isinstance(y, ast.Call) and isinstance(y.func, ast.Attribute) and y.func.attr == "append" for b in t.finalbody for y in ast.walk(b))
